@@ -234,7 +234,7 @@ theorem run_blocks_on_error_diagnostics :
 theorem commands_write_after_success :
     (let evs := eventsOf "cmd/entrypoint.go:GenerateSpecAndRoutes"
      guarded evs "GetConfigAndMetadata" = true ∧ before evs "GetConfigAndMetadata" "routes.GenerateRoutes" = true ∧
-     before evs "GetConfigAndMetadata" "swagen.GenerateAndOutputSpec" = true) ∧
+     before evs "GetConfigAndMetadata" "swagen.GenerateSpec" = true ∧ before evs "GetConfigAndMetadata" "swagen.OutputSpec" = true) ∧
     (let evs := eventsOf "cmd/entrypoint.go:GenerateRoutes"
      guarded evs "GetConfigAndMetadata" = true ∧ before evs "GetConfigAndMetadata" "routes.GenerateRoutes" = true) ∧
     (let evs := eventsOf "cmd/entrypoint.go:GenerateSpec"
